@@ -142,9 +142,30 @@ func checkLibWrites(col *evid.Collector, db *refDB) {
 		}
 		col.Class("libwrite/%s/%s/%s", a.Method, a.KeyCls, out)
 		if changed {
-			col.Violation(fmt.Sprintf("C20:library-table-modified:%s:%s", a.Method, a.KeyCls),
+			col.Violation("C20:library-table-modified:"+writeCause(a),
 				fmt.Sprintf("script modified library table %s (%s, key %s): %s [%s]", a.Lib, a.Method, a.Key, firstLine(a.Script), detail),
 				replayCase{Kind: "libwrite", Write: &a})
 		}
 	}
+}
+
+// writeCause names why the write got through (one signature per cause, not
+// per syntactic form of the write).
+func writeCause(a writeAttempt) string {
+	switch {
+	case a.Method == "rawset" || a.Method == "setmetatable":
+		return a.Method + "-reachable"
+	case len(a.Method) > 6 && a.Method[:6] == "table.":
+		fn := a.Method
+		for i := 6; i < len(fn); i++ {
+			if fn[i] == '-' {
+				fn = fn[:i]
+				break
+			}
+		}
+		return fn + "-writes-raw"
+	case a.KeyCls == "existing-key":
+		return "assignment-to-existing-key"
+	}
+	return "assignment-to-absent-key"
 }
